@@ -27,6 +27,8 @@ after an orderly Close the client reconnects by itself and UDP flows again. Time
 enum Act {
     Rst,
     Close,
+    /// read what the client sends first (its request, or its TLS ClientHello), then close in an orderly way (FIN, nothing unread)
+    ReadClose,
     Stall,
     Http404,
     ForwardCut(u64),
@@ -70,6 +72,21 @@ async fn gate(listener: TcpListener, server: SocketAddr, script: Vec<Act>, log: 
                 Act::Close => {
                     c.shutdown().await.ok();
                     drop(c);
+                }
+                Act::ReadClose => {
+                    let mut b = [0u8; 4096];
+                    let _ = tokio::time::timeout(Duration::from_millis(500), c.read(&mut b)).await;
+                    c.shutdown().await.ok();
+                    mark_end(&log2);
+                    // wait for the client's side of the close, so that no reset is generated
+                    let _ = tokio::time::timeout(Duration::from_secs(2), async {
+                        loop {
+                            match c.read(&mut b).await {
+                                Ok(0) | Err(_) => break,
+                                Ok(_) => {}
+                            }
+                        }
+                    }).await;
                 }
                 Act::Stall => {
                     // hold the connection without answering until the client gives up
@@ -249,7 +266,19 @@ async fn run_scenario(sc: Scenario, seed: u64) -> Outcome {
     let state = State::new().await.expect("state").with_not_found_resp("404").with_backend_http2_support(false);
     let srv_l = TcpListener::bind("127.0.0.1:0").await.expect("bind");
     let srv_addr = srv_l.local_addr().expect("addr");
-    let srv = tokio::spawn(run_listener(srv_l, None, state));
+    // scenarios named tls-*: the server speaks TLS (self-signed, the client skips verification)
+    let tls_dir = tempfile::tempdir().expect("tempdir");
+    let identity = if sc.name.starts_with("tls-") {
+        let k = rcgen::KeyPair::generate_for(&rcgen::PKCS_ECDSA_P256_SHA256).expect("key");
+        let cert = rcgen::CertificateParams::new(vec!["localhost".to_string()]).expect("params").self_signed(&k).expect("self-sign");
+        let (cp, kp) = (tls_dir.path().join("srv.pem"), tls_dir.path().join("srv.key"));
+        std::fs::write(&cp, cert.pem()).expect("write");
+        std::fs::write(&kp, k.serialize_pem()).expect("write");
+        Some(rusty_penguin_lib::tls::make_tls_identity(cp.to_str().expect("path"), kp.to_str().expect("path"), None).await.expect("tls identity"))
+    } else {
+        None
+    };
+    let srv = tokio::spawn(run_listener(srv_l, identity, state));
     // gate
     let gate_l = TcpListener::bind("127.0.0.1:0").await.expect("bind");
     let gate_addr = gate_l.local_addr().expect("addr");
@@ -442,6 +471,13 @@ fn scenarios(rng: &mut Rng64, thorough: bool) -> Vec<Scenario> {
         Scenario { name: "parked-request-retried-on-dying-connections", script: vec![Act::ForwardSwallowCut(100, 120), Act::UpgradeThenSwallowCut(60), Act::UpgradeThenSwallowCut(60), Act::UpgradeThenSwallowCut(60), Act::Healthy], max_retry_count: 0, max_retry_interval: 1600, converse_at: Some(150), udp_after_ms: None, expect_exit: None, observe_ms: 4500 },
         // the attempt stalls before the WebSocket upgrade can even be sent (TLS session setup against a silent peer)
         Scenario { name: "tls-stall-retry-limit-2", script: vec![Act::Stall; 8], max_retry_count: 2, max_retry_interval: 400, converse_at: None, udp_after_ms: None, expect_exit: Some("MaxRetryCountReached"), observe_ms: 6500 },
+        // TLS transport: the peer closes the TCP connection in the middle of the TLS handshake (what a load balancer without a
+        // healthy backend does): retryable like any other failed attempt
+        Scenario { name: "tls-eof-in-handshake-then-healthy", script: vec![Act::ReadClose, Act::ReadClose, Act::Healthy], max_retry_count: 0, max_retry_interval: 400, converse_at: Some(100), udp_after_ms: None, expect_exit: None, observe_ms: 3500 },
+        // TLS transport: an established tunnel is cut without a TLS close_notify (a middlebox drops the TCP connection)
+        Scenario { name: "tls-session-cut-then-healthy", script: vec![Act::ForwardCut(300), Act::Healthy], max_retry_count: 0, max_retry_interval: 400, converse_at: Some(450), udp_after_ms: None, expect_exit: None, observe_ms: 3500 },
+        // the same on the plain transport: the peer reads the upgrade request and closes
+        Scenario { name: "eof-after-request-then-healthy", script: vec![Act::ReadClose, Act::ReadClose, Act::Healthy], max_retry_count: 0, max_retry_interval: 400, converse_at: Some(100), udp_after_ms: None, expect_exit: None, observe_ms: 3500 },
         // local UDP traffic does not stop because the tunnel is down: the client survives the burst and UDP works afterwards
         Scenario { name: "udp-burst-during-outage", script: vec![Act::Rst, Act::Rst, Act::Rst, Act::Rst, Act::Healthy], max_retry_count: 0, max_retry_interval: 400, converse_at: None, udp_after_ms: Some(2600), expect_exit: None, observe_ms: 5500 },
         // neither do local SOCKS clients: more requests than the internal channel holds pile up behind one TCP-remote connection
